@@ -936,6 +936,9 @@ func (v Value) toReflectValue(typ reflect.Type) (reflect.Value, error) {
 			return reflect.Value{}, fmt.Errorf("TypeError: could not convert %v to reflect.Type: %v", v, typ)
 		case valueEmpty, valueResult, valueReference:
 			// These are invalid, and should panic
+		case valueString:
+			// The Value may hold the string as UTF-16 code units ([]uint16): hand Go a string.
+			return assignableTo(reflect.ValueOf(v.string()), typ)
 		default:
 			return assignableTo(reflect.ValueOf(v.value), typ)
 		}
